@@ -38,7 +38,10 @@ MANIFEST = {
             "proved an equivalence and every operator a congruence for it. Filter timestamp strings: parse_ts is proved "
             "to agree with C15's strict reader (Spec/TimestampSpec.v) and with C15's model of strptime (Model/Timestamp.v). "
             "The model tree is arranged in the os.listdir order the worker observed, so most filesystem-route answers are "
-            "compared in order and with their exact exception class. "
+            "compared in order and with their exact exception class; the remaining ones (about 6 %: a white list with two "
+            "or more values is walked in Python set order) are compared as multisets, two exception classes out of "
+            "TypeError / AttributeError / ValueError counting as one observation. "
+            "`answer_iff_every_filter_holds` is definitional in the model (one unfolding of holds_b / all_hold). "
             "Variants detected at run time: ts_mode (TextOnDicts = known finding C12-dict-timestamp-text), opt_mode. "
             "Source-text tie: translators/tr_filters.py reads, on every run, the ast of filters.py (FILTER_OPS, "
             "_check_filter_components, Filter.__new__ / _check_property, apply_common_filters, _check_filter, FilterSet) and of "
